@@ -8,10 +8,11 @@ FT = {'f32': 'float', 'f64': 'double', 'f80': 'long double'}
 
 def fgrid(tier, seed):
     rnd = random.Random(seed * 4099 + 4)
-    reps = ['i8', 'u8', 'i16', 'u16', 'i32', 'u32', 'i64', 'u64']
+    reps = ['i8', 'u8', 'i16', 'u16', 'i32', 'u32', 'i64', 'u64', 'i128', 'u128']
     out = [('i16', -8, 2, 'f32'), ('u8', -4, 2, 'f64'), ('i32', -16, 2, 'f32'), ('i64', -31, 2, 'f64'), ('i32', 0, 2, 'f80'),
-           ('u32', 10, 2, 'f32'), ('i16', -1, 10, 'f64'), ('i64', -70, 2, 'f80'), ('u64', 70, 2, 'f64'), ('i8', -7, 2, 'f32')]
-    n = 20 if tier == 'quick' else 90
+           ('u32', 10, 2, 'f32'), ('i16', -1, 10, 'f64'), ('i64', -70, 2, 'f80'), ('u64', 70, 2, 'f64'), ('i8', -7, 2, 'f32'),
+           ('u128', -10, 2, 'f32'), ('i128', -40, 2, 'f32'), ('u128', -64, 2, 'f64'), ('i128', 0, 2, 'f80')]
+    n = 24 if tier == 'quick' else 96
     while len(out) < n:
         r = rnd.choice(reps)
         rx = rnd.choice([2, 2, 2, 2, 10])
